@@ -293,3 +293,18 @@ Definition tri_in_side (a b c p : pt) : bool :=
   negb (dot u v <? 0) && negb (dot u w <? 0) && (0 <=? dot v w).
 Definition coplanar (a b c p : pt) : bool :=
   dot (cross (vsub b a) (vsub c a)) (vsub p a) =? 0.
+
+(* ---------- exact (rational) closest point of a segment element ---------- *)
+(* scopedLine.ClosestPoint = Line3D.ClosestPointOnLine: t = (p-a).heading / |b-a| with heading the unit
+   vector, i.e. t = (p-a).(b-a) / |b-a|^2; p2 if t >= 1, p1 if t <= 0, else p1 + (p2-p1)*t.  Model
+   units (Go coordinate x4) throughout; exact over Q. *)
+Definition qpt := (Q * Q * Q)%type.
+Definition zq (z : Z) : Q := inject_Z z.
+Definition seg_param (a b p : pt) : Q :=
+  (zq (dot (vsub p a) (vsub b a)) / zq (dot (vsub b a) (vsub b a)))%Q.
+Definition seg_closest (a b p : pt) : qpt :=
+  let t := seg_param a b p in
+  (seg_at (zq (px a)) (zq (px b)) t, seg_at (zq (py a)) (zq (py b)) t, seg_at (zq (pz a)) (zq (pz b)) t).
+Definition qsq (x : Q) : Q := (x * x)%Q.
+Definition qdist2 (c : qpt) (p : pt) : Q :=
+  let '(cx, cy, cz) := c in (qsq (cx - zq (px p)) + qsq (cy - zq (py p)) + qsq (cz - zq (pz p)))%Q.
